@@ -20,6 +20,8 @@ enum PayClass {
 	Incompressible { len: u32, seed: u32 },
 	Compressible { len: u32, seed: u32 },
 	Mixed70k { seed: u32 },
+	/// a payload that is itself a gzip (`brotli: false`) or brotli file, e.g. a compressed attachment
+	CompressedFile { len: u32, seed: u32, brotli: bool },
 }
 
 impl PayClass {
@@ -36,6 +38,14 @@ impl PayClass {
 				}
 				v.truncate(*len as usize);
 				v
+			}
+			PayClass::CompressedFile { len, seed, brotli } => {
+				let inner = PayClass::Compressible { len: *len, seed: *seed }.bytes();
+				if *brotli {
+					util::brotli_c(&inner)
+				} else {
+					util::gzip(&inner)
+				}
 			}
 			PayClass::Mixed70k { seed } => {
 				let mut v = Mix::new(*seed as u64 ^ 77).bytes(20_000);
@@ -81,12 +91,13 @@ fn pay() -> impl Strategy<Value = PayClass> {
 		2 => (10_000u32..100_000, any::<u32>()).prop_map(|(len, seed)| PayClass::Compressible { len, seed }),
 		1 => any::<u32>().prop_map(|seed| PayClass::Mixed70k { seed }),
 		1 => (1u32..40, any::<u32>()).prop_map(|(len, seed)| PayClass::Compressible { len, seed }),
+		1 => (0u32..3000, any::<u32>(), any::<bool>()).prop_map(|(len, seed, brotli)| PayClass::CompressedFile { len, seed, brotli }),
 	]
 }
 
 fn strategy() -> impl Strategy<Value = Case> {
-	(0usize..5, 0usize..3, proptest::option::weighted(0.75, 0usize..3), any::<bool>(), 0usize..10, 8u8..14, proptest::collection::vec((0u8..8, 0u8..8, pay()), 1..6), proptest::option::weighted(0.8, vt::gen::meta_doc()), proptest::option::weighted(0.4, (0usize..5, any::<u32>())), (prop::bool::weighted(0.25), prop::bool::weighted(0.25)))
-		.prop_map(|(t, s, tc, force, f, z, tiles, meta, source, (flip_y, swap_xy))| {
+	(0usize..5, 0usize..3, proptest::option::weighted(0.75, 0usize..3), any::<bool>(), 0usize..10, 8u8..14, proptest::collection::vec((0u8..8, 0u8..8, pay()), 1..6), proptest::option::weighted(0.8, vt::gen::meta_doc()), proptest::option::weighted(0.4, (0usize..5, any::<u32>())), (prop::bool::weighted(0.25), prop::bool::weighted(0.25)), prop::bool::weighted(0.15))
+		.prop_map(|(t, s, tc, force, f, z, tiles, meta, source, (flip_y, swap_xy), keep_pair)| {
 			let target = Target::ALL[t];
 			let source_comp = Comp::ALL[s];
 			let mut target_comp = tc.map(|i| Comp::ALL[i]);
@@ -94,6 +105,8 @@ fn strategy() -> impl Strategy<Value = Case> {
 			// pick a format the target can express together with the resulting compression
 			let mut format = Fmt::ALL[f];
 			match target {
+				// (a pair MBTiles cannot express is kept now and then: the conversion must refuse it)
+				Target::Mbtiles if keep_pair => {}
 				Target::Mbtiles => {
 					if out == Comp::Gzip {
 						format = Fmt::Pbf;
@@ -163,6 +176,12 @@ fn oracle(case: &Case, obs: &mut Obs) -> Result<(), Fail> {
 	let p = path.to_str().unwrap().to_string();
 	match guard(|| util::block_on(convert_tiles_container(src, cp, &p))) {
 		Ok(Ok(())) => {}
+		// MBTiles holds pbf+gzip and uncompressed jpg/png/webp only: any other pair has to be refused
+		Ok(Err(_)) if case.target == Target::Mbtiles && !Target::Mbtiles.accepts(case.format, out_comp) => {
+			obs.label("mbtiles-refuses-the-pair");
+			obs.nontrivial(true);
+			return Ok(());
+		}
 		Ok(Err(e)) => fail!("recompress:convert-error", "conversion {:?}->{:?} (force={}) to {} failed: {e:#}", case.source_comp, case.target_comp, case.force, case.target.name()),
 		Err(pi) => return Err(Fail::from_panic("conversion", &pi)),
 	}
@@ -227,7 +246,7 @@ fn main() {
 	let mut check = Check::from_args(
 		"C04",
 		"exploration",
-		"1-5 raw payloads per case from the classes {0 bytes (only between compressed source and compressed output), 1 byte, incompressible 200 B-4 KiB, compressible 10-100 KiB, 70 KiB mixed, tiny} stored in an in-memory source, or in a container of any of the five formats written by the harness's encoder (generated layout: PMTiles leaf directories and internal compressions, sparse versatiles blocks, MBTiles views ...), compressed with flate2/brotli directly (3 source compressions) x target compression {keep, none, gzip, brotli} x force flag x flip-y / swap-xy (a quarter of the cases each) x 5 target formats (format chosen so that the pair is expressible) x TileJSON document; oracle: independent decoder of the output: declared compression = requested, every tile decoded with the harness's decompressor for the declared compression = raw payload, metadata decodes to the same JSON keys; non-trivial = target differs from the source compression or recompression is forced",
+		"1-5 raw payloads per case from the classes {0 bytes (only between compressed source and compressed output), 1 byte, incompressible 200 B-4 KiB, compressible 10-100 KiB, 70 KiB mixed, tiny, a payload that is itself a gzip or brotli file} stored in an in-memory source, or in a container of any of the five formats written by the harness's encoder (generated layout: PMTiles leaf directories and internal compressions, sparse versatiles blocks, MBTiles views ...), compressed with flate2/brotli directly (3 source compressions) x target compression {keep, none, gzip, brotli} x force flag x flip-y / swap-xy (a quarter of the cases each) x 5 target formats (format chosen so that the pair is expressible; for MBTiles an inexpressible pair is kept now and then and must be refused or, if accepted, satisfy the same oracle) x TileJSON document; oracle: independent decoder of the output: declared compression = requested, every tile decoded with the harness's decompressor for the declared compression = raw payload, metadata decodes to the same JSON keys; non-trivial = target differs from the source compression or recompression is forced",
 	);
 	check.assume("flate2 and brotli crates as independent reference implementations of gzip/brotli");
 	vt::engine::watchdog(3600);
